@@ -17,6 +17,8 @@ round trips the theorems of KmipModel.Props.C05Convert state.
 import enum
 import json
 import logging
+import os
+import sys
 import time
 import warnings
 
@@ -38,6 +40,10 @@ class Impl(object):
 
     def __init__(self):
         logging.disable(logging.CRITICAL)
+        # the implementation under check is VERIF_REPO's working tree, as in vcheck (which has set sys.path already)
+        repo = os.environ.get("VERIF_REPO")
+        if repo and repo not in sys.path:
+            sys.path.insert(0, repo)
         import sqlalchemy
         from sqlalchemy.orm import sessionmaker
         from kmip.core import enums, objects as cobjects, secrets, misc, attributes, primitives
@@ -267,6 +273,12 @@ KDW_CP = ["block_cipher_mode", "padding_method", "hashing_algorithm", "key_role_
           "invocation_field_length", "counter_length", "initial_counter_value"]
 
 
+KEY_COLUMNS = (["cryptographic_algorithm", "cryptographic_length", "key_format_type", "_kdw_wrapping_method",
+                "_kdw_eki_unique_identifier"] + ["_kdw_eki_cp_" + f for f in KDW_CP] + ["_kdw_mski_unique_identifier"]
+               + ["_kdw_mski_cp_" + f for f in KDW_CP] + ["_kdw_mac_signature", "_kdw_iv_counter_nonce",
+                                                            "_kdw_encoding_option"])
+
+
 def desc_cols(o):
     return {"method": fv(o._kdw_wrapping_method), "ekiUid": fv(o._kdw_eki_unique_identifier),
             "ekiCp": [fv(getattr(o, "_kdw_eki_cp_" + f)) for f in KDW_CP],
@@ -360,27 +372,29 @@ def mutate(I, o, mut):
 # ------------------------------------------------------------------ raw rows
 def read_row(I, uid):
     """the stored rows of one object, read with plain SQL (no type decorators)"""
-    text = I.sqlalchemy.text
     with I.db.connect() as c:
         def one(table, cols):
-            r = c.execute(text("SELECT %s FROM %s WHERE uid = :u" % (", ".join('"%s"' % x for x in cols), table)),
-                          {"u": uid}).fetchone()
+            r = c.exec_driver_sql("SELECT %s FROM %s WHERE uid = ?" % (", ".join('"%s"' % x for x in cols), table),
+                                  (uid,)).fetchone()
             return None if r is None else dict(zip(cols, r))
         mo = one("managed_objects", ["object_type", "class_type", "value", "name_index", "operation_policy_name",
                                      "sensitive", "initial_date", "owner"])
-        names = c.execute(text("SELECT name, name_index, name_type FROM managed_object_names WHERE mo_uid = :u ORDER BY id"),
-                          {"u": uid}).fetchall()
+        ct = mo["class_type"]
+        names = c.exec_driver_sql("SELECT name, name_index, name_type FROM managed_object_names WHERE mo_uid = ? "
+                                  "ORDER BY id", (uid,)).fetchall()
         co = one("crypto_objects", ["cryptographic_usage_mask", "state"])
-        kcols = (["cryptographic_algorithm", "cryptographic_length", "key_format_type", "_kdw_wrapping_method",
-                  "_kdw_eki_unique_identifier"] + ["_kdw_eki_cp_" + f for f in KDW_CP] + ["_kdw_mski_unique_identifier"]
-                 + ["_kdw_mski_cp_" + f for f in KDW_CP] + ["_kdw_mac_signature", "_kdw_iv_counter_nonce",
-                                                              "_kdw_encoding_option"])
-        k = one("keys", kcols)
-        sp = one("split_keys", ["_split_key_parts", "_key_part_identifier", "_split_key_threshold", "_split_key_method",
-                                "_prime_field_size"])
-        ce = one("certificates", ["certificate_type"])
-        sd = one("secret_data_objects", ["data_type"])
-        op = one("opaque_objects", ["opaque_type"])
+        k = sp = ce = sd = op = None
+        if ct in ("SymmetricKey", "PublicKey", "PrivateKey", "SplitKey"):
+            k = one("keys", KEY_COLUMNS)
+        if ct == "SplitKey":
+            sp = one("split_keys", ["_split_key_parts", "_key_part_identifier", "_split_key_threshold",
+                                    "_split_key_method", "_prime_field_size"])
+        if ct == "X509Certificate":
+            ce = one("certificates", ["certificate_type"])
+        if ct == "SecretData":
+            sd = one("secret_data_objects", ["data_type"])
+        if ct == "OpaqueData":
+            op = one("opaque_objects", ["opaque_type"])
     crypto = None if co is None else {"mask": co["cryptographic_usage_mask"], "state": co["state"]}
     key = None
     if k is not None:
@@ -403,7 +417,6 @@ def read_row(I, uid):
                         "mskiUid": rawfv(k["_kdw_mski_unique_identifier"], "text"), "mskiCp": cp("_kdw_mski_cp_"),
                         "macSig": rawfv(k["_kdw_mac_signature"], "bytes"), "iv": rawfv(k["_kdw_iv_counter_nonce"], "bytes"),
                         "encoding": rawfv(k["_kdw_encoding_option"], "int")}}
-    ct = mo["class_type"]
     if ct == "X509Certificate":
         spec = {"t": "certificate", "crypto": crypto, "certType": ce["certificate_type"]}
     elif ct in ("SymmetricKey", "PublicKey", "PrivateKey"):
@@ -433,7 +446,7 @@ def gen_bytes(r, lens=(0, 1, 8, 16, 24, 32, 33, 300, 1100)):
     return bytes(r.randrange(256) for _ in range(n)).hex() if n < 64 else (bytes([r.randrange(256)]) * n).hex()
 
 
-def gen_cp(r, I, typed=True):
+def gen_cp(r, I):
     x = r.random()
     if x < 0.2:
         return None
@@ -671,8 +684,15 @@ def wrap_normal(w):
                 truthy(w["encoding"])])
 
 
+# repaired in /repo (683f968, 8b96c42): such a secret must be REFUSED by the object factory; if it is accepted again the
+# monitors below report it under these signatures with the secret as replay
+REPAIRED = {"secret-data-wrapping-data-dropped": "c05:secret-data-wrapping-data-dropped",
+            "split-key-prime-field-size-not-storable": "c05:split-key-prime-field-size-not-storable"}
+
+
 def storable_exceptions(c):
-    """why a core secret is outside the domain of `register_get_conversion_fidelity` (empty list: inside)"""
+    """why a core secret is outside the domain of `register_get_exact` (empty list: inside).  The REPAIRED classes
+    are outside as well, but the factory refuses them, so nothing of them is ever stored."""
     out = []
     kb = c.get("kb")
     if kb is not None:
@@ -733,7 +753,7 @@ def run_case(I, case):
             hops.append({"hop": "coreToPie", "input": {"core": c}, "impl": {"err": exc_desc(e)}})
             return hops, fails, ["refused:" + type(e).__name__]
         # core -> pie -> core: the only differences are the characterised ones
-        if not [x for x in storable_exceptions(c) if x != "split-key-prime-field-size-not-storable"]:
+        if not storable_exceptions(c):
             try:
                 c2 = desc_core(I, I.factory.convert(o))
                 if c2 != c:
@@ -800,6 +820,14 @@ def run_case(I, case):
     except Exception as e:
         root = getattr(e, "orig", None) or e.__cause__ or e
         hops.append({"hop": "pieToRow", "input": {"pie": p}, "impl": {"err": exc_desc(root)}})
+        if case["kind"] == "core":
+            # whatever Register's conversion accepts can be stored (theorem registered_object_is_storable)
+            exc = storable_exceptions(case["core"])
+            sig = REPAIRED["split-key-prime-field-size-not-storable"] \
+                if "split-key-prime-field-size-not-storable" in exc else \
+                "c05conv:accepted-secret-not-storable:%s" % type(root).__name__
+            fails.append((sig, "a secret the object factory accepted cannot be stored: %s: %s; secret %s"
+                          % (type(root).__name__, str(root)[:120], dumps(case["core"])[:400])))
         return hops, fails, notes + ["store-refused:" + type(root).__name__]
     hops.append({"hop": "pieToRow", "input": {"pie": p}, "impl": {"ok": row}})
     hops.append({"hop": "rowToPie", "input": {"row": row}, "impl": {"ok": rec["loaded"]}})
@@ -823,8 +851,14 @@ def run_case(I, case):
                                   "client %s, stored %s" % (dumps(rec["client_view"])[:400], dumps(view0)[:400])))
         if case["kind"] == "core":
             exc = storable_exceptions(case["core"])
+            if "secret-data-wrapping-data-dropped" in exc and \
+                    rec["core"]["ok"]["kb"]["wrapping"] != case["core"]["kb"]["wrapping"]:
+                fails.append((REPAIRED["secret-data-wrapping-data-dropped"],
+                              "a wrapped Secret Data was registered and Get returns it without its key wrapping "
+                              "data: registered %s, returned %s" % (dumps(case["core"])[:300],
+                                                                   dumps(rec["core"]["ok"])[:300])))
             if exc:
-                notes.extend("characterised:" + x for x in exc)
+                notes.extend("characterised:" + x for x in exc if x not in REPAIRED)
             elif rec["core"]["ok"] != case["core"]:
                 c, g = case["core"], rec["core"]["ok"]
                 fails.append(("c05conv:register-get-differs:%s" % c["t"],
@@ -912,6 +946,12 @@ def check_cases(ctx, I, cases):
         for sig, what in fails:
             stats["monitor_failures"] += 1
             ctx.report(sig, what, {"kind": "convert-objects", "case": case})
+        if REPORT_CHARACTERISED:
+            for n in notes:
+                if n.startswith("characterised:") and n[len("characterised:"):] in CHARACTERISED:
+                    ctx.report(CHARACTERISED[n[len("characterised:"):]], "Register ; database ; Get does not return "
+                               "the registered secret (%s)" % n[len("characterised:"):],
+                               {"kind": "convert-objects", "case": case})
     lines, index = [], []
     for ci, (case, hops) in enumerate(records):
         for hi, h in enumerate(hops):
@@ -919,7 +959,9 @@ def check_cases(ctx, I, cases):
             d.update(h["input"])
             lines.append(dumps(d))
             index.append((ci, hi))
+    t1 = time.time()
     out = ctx.run_model("ConvertObjects", lines)
+    stats["model_seconds"] = time.time() - t1
     for (ci, hi), line, res in zip(index, lines, out):
         case, hops = records[ci]
         h = hops[hi]
@@ -941,19 +983,31 @@ def check_cases(ctx, I, cases):
     return stats
 
 
+# the points outside the domain of `register_get_exact` (each has a witness theorem in KmipModel.Props.C05Convert);
+# with REPORT_CHARACTERISED they are reported under these signatures instead of only counted
+CHARACTERISED = {
+    "secret-data-format-reported-opaque": "c05:secret-data-format-reported-opaque",
+    "secret-data-algorithm-length-dropped": "c05:secret-data-algorithm-length-dropped",
+    "falsy-wrapping-parameters-dropped": "c05:falsy-wrapping-parameters-dropped",
+    "key-compression-type-dropped": "c05:key-compression-type-dropped",
+    "key-value-attributes-dropped": "c05:key-value-attributes-dropped",
+}
+REPORT_CHARACTERISED = False
+
+
 def run(ctx, rng, n=None):
     t0 = time.time()
     I = Impl()
     try:
         if n is None:
-            n = 1750 if ctx.tier == "quick" else 40000
+            n = 1610 if ctx.tier == "quick" else 20000
         cases = gen_cases(rng, I, n)
         stats = {"cases": 0, "hops": {}, "per_type": {}, "refusals": {}, "notes": {}, "monitor_failures": 0,
                  "divergences": 0, "distinct": set()}
         for i in range(0, len(cases), 6000):
             s = check_cases(ctx, I, cases[i:i + 6000])
-            for k in ("cases", "monitor_failures", "divergences"):
-                stats[k] += s[k]
+            for k in ("cases", "monitor_failures", "divergences", "model_seconds"):
+                stats[k] = stats.get(k, 0) + s[k]
             for k in ("hops", "refusals", "notes"):
                 for a, b in s[k].items():
                     stats[k][a] = stats[k].get(a, 0) + b
@@ -967,20 +1021,28 @@ def run(ctx, rng, n=None):
     return {"convert_objects": stats["cases"], "convert_objects_hops_compared": sum(stats["hops"].values()),
             "convert_objects_hops": stats["hops"], "convert_objects_per_type": stats["per_type"],
             "convert_objects_refusals": stats["refusals"], "convert_objects_notes": stats["notes"],
+            "convert_objects_characterised": {k[len("characterised:"):]: v for k, v in stats["notes"].items()
+                                              if k.startswith("characterised:")},
             "convert_objects_distinct": len(stats["distinct"]), "convert_objects_divergences": stats["divergences"],
             "convert_objects_monitor_failures": stats["monitor_failures"],
             "convert_objects_sample": cases[0] if cases else None,
-            "convert_objects_seconds": round(time.time() - t0, 1)}
+            "convert_objects_seconds": round(time.time() - t0, 1),
+            "convert_objects_model_seconds": round(stats.get("model_seconds", 0), 1)}
 
 
-def replay_case(ctx, case):
-    """re-run one case under the monitors (and the model comparison); True iff everything holds"""
+def replay_case(ctx, case, signature=None):
+    """re-run one case under the monitors (and the model comparison); True iff everything holds.  For a report made
+    under one of the CHARACTERISED signatures: True iff the secret now comes back as registered."""
     I = Impl()
     try:
         hops, fails, notes = run_case(I, json.loads(json.dumps(case)))
         for sig, what in fails:
             print("  monitor:", sig, "-", what[:300])
         ok = not fails
+        for k, sig in CHARACTERISED.items():
+            if signature == sig and ("characterised:" + k) in notes:
+                print("  still outside exact fidelity:", k)
+                ok = False
         lines = []
         for h in hops:
             d = {"cmd": h["hop"]}
